@@ -2,7 +2,7 @@ SPECIFICATION Spec
 CONSTANTS
   Clients = {"eth", "bsc"}
   Kinds = {"commit", "ack"}
-  AccountCls = {"ok", "otheraccount", "otheraddr", "otherroot", "absent", "truncated", "padded", "wrongnonce", "wrongbalance", "wrongstorage", "wrongcode", "empty"}
+  AccountCls = {"ok", "otheraccount", "otheraddr", "otherroot", "absent", "truncated", "padded", "wrongnonce", "wrongbalance", "wrongstorage", "forgedstorage", "wrongcode", "empty"}
   StorageCls = {"ok", "otherslot", "othervalue", "absentkey", "truncated", "padded", "zeroproofs", "twoproofs", "keymismatch"}
   HeightCls = {"ok", "unknown", "abovehead", "abovestored", "withindelay"}
   PathCls = {"ok", "otherseq", "otherkind", "otherchain"}
